@@ -224,12 +224,17 @@ func Equal[K comparable, V any](a, b *Map[K, V]) bool {
 		return false
 	}
 	i, j := 0, 0
-	for i < len(a.items) && j < len(b.items) {
-		for a.items[i].deleted {
+	for {
+		// Skip deleted items, which may be at the end of either slice.
+		for i < len(a.items) && a.items[i].deleted {
 			i++
 		}
-		for b.items[j].deleted {
+		for j < len(b.items) && b.items[j].deleted {
 			j++
+		}
+		if i >= len(a.items) || j >= len(b.items) {
+			// The lengths are equal, so both maps run out of items together.
+			break
 		}
 		if a.items[i].Key != b.items[j].Key {
 			return false
